@@ -10,6 +10,7 @@
 //	  S2  ... and by an OnlyInterested call that returned x
 //	timing policy (generous bounds, canary, three re-fails):
 //	  T1  no request to p for x later than `grace` after x was reported received, unless p announced x anew
+//	  T2  no request to p for x after x was not interesting for a whole `grace` window, unless p announced x since
 //	  T3  no request for x when x has not been interesting at any moment of the last `grace`
 //	  T4  an announced item that stays interesting and unreceived (and younger than the forget timeout)
 //	      is requested within 4*ArriveTimeout + 1 s after max(announcement, end of suspension)
@@ -69,6 +70,8 @@ type history struct {
 	// SlackMs > 0 selects the tight deadline 4*ArriveTimeout + SlackMs (many-peers unit); runs whose canary
 	// overslept more than a quarter of the slack are not counted
 	SlackMs int `json:",omitempty"`
+	// QueuedBatches is the fetcher's MaxQueuedBatches (32 when zero)
+	QueuedBatches int `json:",omitempty"`
 }
 
 func (h history) arrive() time.Duration { return time.Duration(h.ArriveMs) * time.Millisecond }
@@ -151,6 +154,9 @@ type runner struct {
 
 	f          *itemsfetcher.Fetcher
 	nextMarker int
+
+	gate        chan struct{} // when set, the next OnlyInterested call blocks until it is closed
+	gateEntered chan struct{}
 }
 
 func (r *runner) now() time.Duration { return time.Since(r.t0) }
@@ -165,6 +171,15 @@ func (r *runner) add(e *event) *event {
 }
 
 func (r *runner) onlyInterested(ids []interface{}) []interface{} {
+	// a slow application callback: the armed gate holds this one call (and with it the fetcher's loop)
+	r.mu.Lock()
+	g := r.gate
+	r.gate = nil
+	r.mu.Unlock()
+	if g != nil {
+		r.gateEntered <- struct{}{}
+		<-g
+	}
 	r.mu.Lock()
 	defer r.mu.Unlock()
 	e := &event{Kind: evOI, T: r.now()}
@@ -262,6 +277,10 @@ func run(h history) verdict {
 		MaxParallelRequests: h.MaxParallel,
 		MaxQueuedBatches:    32,
 	}
+	if h.QueuedBatches > 0 {
+		cfg.MaxQueuedBatches = h.QueuedBatches
+	}
+	r.gateEntered = make(chan struct{}, 1)
 	r.f = itemsfetcher.New(cfg, itemsfetcher.Callback{
 		OnlyInterested: r.onlyInterested,
 		Suspend: func() bool {
@@ -307,6 +326,49 @@ func run(h history) verdict {
 				ids[i] = x
 			}
 			if err := r.f.NotifyReceived(ids); err != nil {
+				return infra(err)
+			}
+			for i := 0; i < 40; i++ {
+				if _, err := r.announce(roundTripPeer, nil); err != nil {
+					return infra(err)
+				}
+			}
+			r.mu.Lock()
+			e.T2, e.Done = r.now(), true
+			r.mu.Unlock()
+		case "receivedBurst":
+			// the application's OnlyInterested callback is slow once (the loop is held inside it) while every item
+			// is reported received with a call of its own: more reports than the fetcher queues. All of them
+			// count as reported.
+			g := make(chan struct{})
+			r.mu.Lock()
+			r.gate = g
+			r.mu.Unlock()
+			annDone := make(chan error, 1)
+			go func() { _, err := r.announce(roundTripPeer, nil); annDone <- err }()
+			select {
+			case <-r.gateEntered:
+			case <-time.After(hardTimeout):
+				close(g)
+				return infra(fmt.Errorf("the fetcher loop did not call OnlyInterested within %v", hardTimeout))
+			}
+			e := r.add(&event{Kind: evRecv, Items: o.Items})
+			recvDone := make(chan error, 1)
+			go func() {
+				for _, x := range o.Items {
+					if err := r.f.NotifyReceived([]interface{}{x}); err != nil {
+						recvDone <- err
+						return
+					}
+				}
+				recvDone <- nil
+			}()
+			time.Sleep(h.arrive() / 4)
+			close(g)
+			if err := <-recvDone; err != nil {
+				return infra(err)
+			}
+			if err := <-annDone; err != nil {
 				return infra(err)
 			}
 			for i := 0; i < 40; i++ {
@@ -418,6 +480,29 @@ func evaluate(h history, log []*event, now time.Duration) evalResult {
 		}
 		return false
 	}
+	// uninterestedWindowBefore: start of a window of at least `min` that ends before t during which x was not
+	// interesting at any moment (the latest such window)
+	uninterestedWindowBefore := func(x int, t, min time.Duration) (time.Duration, bool) {
+		on := !contains(h.Uninterested, x)
+		var start time.Duration
+		found, at := false, time.Duration(0)
+		for _, e := range log {
+			if e.Kind != evInterest || e.Items[0] != x || e.T > t {
+				continue
+			}
+			if !on && e.On && e.T-start >= min {
+				found, at = true, start
+			}
+			if on && !e.On {
+				start = e.T
+			}
+			on = e.On
+		}
+		if !on && t-start >= min {
+			found, at = true, start
+		}
+		return at, found
+	}
 	suspendedAt := func(t time.Duration) bool {
 		v := h.InitSuspended
 		for _, e := range log {
@@ -463,6 +548,22 @@ func evaluate(h history, log []*event, now time.Duration) evalResult {
 			}
 			if announcedByPeer && !live && res.timing == "" {
 				res.timing = fmt.Sprintf("T1: item %d requested from peer%d at %s, more than %s after it was reported received, and peer%d has not announced it anew", x, e.Peer, ms(e.T), ms(grace), e.Peer)
+			}
+			// T2: x was continuously not interesting for `grace` (a re-fetch round fell into that window, the item was
+			// reported not interesting there and dropped), it has become interesting again, and the peer has not
+			// announced it since the window began: nothing may be requested
+			if w, ok := uninterestedWindowBefore(x, e.T, grace); ok && res.timing == "" {
+				anew := false
+				for _, a := range log[:i] {
+					if a.Kind == evAnn && a.Peer == e.Peer && a.has(x) && (a.T >= w || a.T2 >= w) {
+						anew = true
+					}
+				}
+				if !anew {
+					cls["request_after_interest_returned"] = true
+					res.timing = fmt.Sprintf("T2: item %d requested from peer%d at %s, although it had been reported not interesting for more than %s (since %s) and peer%d has not announced it anew",
+						x, e.Peer, ms(e.T), ms(grace), ms(w), e.Peer)
+				}
 			}
 			from := e.T - grace
 			if from < 0 {
